@@ -4,20 +4,30 @@ import worldhist as WH
 import worldgen as W
 import radlib as R
 ID = "C02"
-LEAN_TARGETS = ["Rsp.Props.C02", "Rsp.Props.C01"]
+LEAN_TARGETS = ["Rsp.Props.C02", "Rsp.Props.C01", "Rsp.Props.C02Handoff", "Rsp.Tie.C02"]
 THEOREMS = ["Rsp.Props.C02.sendreply_only_origin", "Rsp.Props.C02.sendreply_queues_once", "Rsp.Props.C02.serialize_header",
-            "Rsp.Props.C02.delivered_packet_matches_request", "Rsp.Props.C02.second_copy_changes_nothing", "Rsp.Props.C01.dorewrite_frame"]
+            "Rsp.Props.C02.delivered_packet_matches_request", "Rsp.Props.C02.second_copy_changes_nothing", "Rsp.Props.C01.dorewrite_frame",
+            "Rsp.Props.C02Handoff.good_reachable", "Rsp.Props.C02Handoff.no_lost_wakeup", "Rsp.Props.C02Handoff.stuck_unreachable",
+            "Rsp.Props.C02Handoff.delivered_prefix", "Rsp.Props.C02Handoff.writer_can_move", "Rsp.Props.C02Handoff.all_delivered",
+            "Rsp.Props.C02Handoff.peek_before_lock_strands_a_reply",
+            "Rsp.Tie.C02.sendreplyProg_tie", "Rsp.Tie.C02.udpserverwr_tie", "Rsp.Tie.C02.tcpserverwr_tie", "Rsp.Tie.C02.tlsserverwr_tie"]
 RULE = ("histories with 2-4 client associations multiplexed on 1-2 servers, the proxy's identifiers made to differ from the clients' (cursor pre-advanced), replies "
         "interleaved in random order, all four reply codes, User-Name rewriting with restoration, hidden attributes, rewrite blocks on server-in and client-out; "
         "compared on every client's queue and the delivered bytes; the monitor checks each delivered packet against the requests that client actually sent. "
-        "non-trivial = history with deliveries to at least two different associations")
+        "non-trivial = history with deliveries to at least two different associations. Hand-off histories: the REAL udpserverwr/tcpserverwr thread of each "
+        "association under the harness scheduler, given the processor at the scheduling points inside sendreply (before the queue mutex is taken / before the "
+        "queue is looked at outside the mutex) and between ops, replies piling up before it runs; every accepted reply must come out of the writer")
 EXHAUSTIVE = {}
 ASSUMPTIONS = ["MD5/HMAC-MD5 are parameters of the theorems"]
 LEVEL_TEXT = ("Lean 4 theorems for every state: sendreply touches only the reply queue of the association recorded in the request and appends the request exactly once "
               "(sendreply_only_origin, sendreply_queues_once); a message whose id/authenticator were restored to the recorded client values serialises to a packet with "
               "that identifier and a Response Authenticator valid under the client's secret and original Request Authenticator (delivered_packet_matches_request); after "
               "delivery the slot is empty so a second copy changes nothing (second_copy_changes_nothing, with C04); reply attributes obey the rewrite frame theorem. Tied "
-              "to the code by differential multi-client histories; the monitor validates each delivered packet against that client's own requests.")
+              "to the code by differential multi-client histories; the monitor validates each delivered packet against that client's own requests. "
+              "Hand-off to the writer thread (Rsp.Props.C02Handoff): for ANY number of concurrent sendreply calls and ANY schedule of single synchronisation statements "
+              "(spurious wake-ups included) no wake-up is lost, the writer can always move while something is undelivered, and what it sent is in order a prefix of what "
+              "was queued; the statement sequences are re-extracted from sendreply and the three writer loops on every run (Rsp.Tie.C02). PARTIAL for the hand-off: "
+              "real preemption is replaced by the harness scheduler's points; tlsserverwr is tied by its extracted skeleton only, not executed.")
 LEVEL_NOTE = "Trusted: Lean kernel + std axioms, harness, generators. Modelled: replyh tail, sendreply, radmsg2buf. The invariant that from/rqid/rqauth are set once by radsrv is read off the model (only radsrvCore writes them)."
 TECHNIQUE = "Lean 4 proof (delivery primitives + serializer theorems) + differential multi-client histories with monitor on delivered bytes"
 DESIGN_REF = "§5 C02"
@@ -75,8 +85,60 @@ def build_one(exe, rng, idx):
     return h.finish(kind="multi", nassoc=len(delivered_to))
 
 
+def build_handoff(exe, rng, idx):
+    """the hand-off to the server-side writer: the REAL udpserverwr / tcpserverwr thread of every client association runs under the
+    harness scheduler; it gets the processor at chosen scheduling points inside sendreply (before the queue mutex is taken, before the
+    queue is looked at without the mutex) and between ops; replies may pile up before it runs. Every accepted reply must come out of it."""
+    cfg = W.rand_cfg(rng, rewrites=False, ttl=False, nclients=rng.randrange(1, 4), nservers=rng.randrange(1, 3))
+    for c in cfg.clients:
+        c["reqma"] = c["reqmap"] = False
+        c["rwuser"] = None
+    cfg.opts["verifyeap"] = 0
+    names = [s["name"] for s in cfg.servers]
+    for sv in cfg.servers:
+        sv["loopprev"] = 255
+    cfg.opts["loopprev"] = 0
+    cfg.realms = [dict(name=b"*", srv=names, acc=names, msg=None, accresp=rng.random() < 0.5)]
+    h = WH.Hist(exe, rng, cfg)
+    if not h.alive:
+        return h.finish(kind="cfg-crash")
+    for c in cfg.clients:
+        h.client(c)
+    for k in range(h.ncl):
+        h.send("wrstart %d" % k)
+    h.send("wrpre %d" % rng.choice([0, 1, 3, 2, 0xffffffff, rng.randrange(16)]))
+    ident = 0
+    for step in range(rng.randrange(10, 40)):
+        if h.s.dead:
+            break
+        r = rng.random()
+        k = rng.randrange(h.ncl)
+        if r < 0.35:
+            code = rng.choice([1, 1, 4, 12])     # Status-Server is answered by the proxy itself: another caller of sendreply
+            h.rq(k, h.make_request(k, code=code, user=rng.choice([b"bob@local", b"x@a.b"]) if code != 12 else False, ident=ident % 256, extra=[], pwd=False,
+                                   with_ma=True if code == 12 else None))
+            ident += 1
+        elif r < 0.45:
+            h.send("writer " + rng.choice(names))
+        elif r < 0.8 and h.outstanding:
+            ent = h.outstanding.pop(rng.randrange(len(h.outstanding)))
+            h.send("writer " + ent[0])
+            out = h.send("reply %s %s" % (ent[0], h.make_reply(ent, attrs=[(18, b"hi")]).hex()))
+            if " q=r" in out or " wout:" in out:
+                h.tag("good-reply")
+        elif r < 0.9:
+            h.send("wrrun %d" % k)
+        else:
+            h.send("wrpre %d" % rng.choice([0, 1, 3, 2, 0xffffffff, rng.randrange(16)]))
+    h.send("wrpre 0")
+    for k in range(h.ncl):
+        h.send("wrrun %d" % k)
+    return h.finish(kind="handoff", nassoc=h.ncl)
+
+
 def gen_run(exe, rng, tier):
-    return WH.run_parallel(exe, rng, 150 if tier == "quick" else 4000, build_one)
+    return (WH.run_parallel(exe, rng, 150 if tier == "quick" else 4000, build_one) +
+            WH.run_parallel(exe, rng, 80 if tier == "quick" else 3000, build_handoff))
 
 
 def gen(rng, tier):
@@ -84,4 +146,6 @@ def gen(rng, tier):
 
 
 def nontrivial(c):
+    if c.tags.get("kind") == "handoff":
+        return c.tags.get("good-reply", 0) >= 2
     return c.tags.get("nassoc", 0) >= 2
